@@ -349,7 +349,7 @@ func c03Run(env *core.Env, idx int) core.CaseResult {
 				}
 				res.Count("kept.absolute-form", 1)
 			} else {
-				if k.IntoRoot && !isFragmentOnly(k.Text) {
+				if k.IntoRoot && !isFragmentOnly(k.Text) && k.Text != "" {
 					res.Violate("kept-ref-into-root-not-fragment-only", fmt.Sprintf("%s holds $ref %q", k.Holder.Ptr, k.Text), wit)
 				}
 				if k.IntoRoot {
